@@ -673,28 +673,28 @@ macro_rules! cfg {
 }
 
 // ============================ alloc_bytes from INV ==========================================
-// @h props=C01,C03,C08,C10,C16,C20 quick=C01,C10 timeout=1500 bounds=CAP=128,MAXN=2,n<=256
+// @h props=C01,C03,C08,C10,C16,C20 quick=C01,C08,C10 timeout=1500 bounds=CAP=128,MAXN=2,n<=256
 #[kani::proof]
 #[kani::unwind(5)]
 fn inv_alloc_bytes_unsync_opt_n2() {
   step_alloc::<unsync::Arena, u8, 2, 3, 128>(cfg!(Optimistic, 1), Kind::Bytes);
 }
 
-// @h props=C01,C03,C08,C10,C16,C20 quick=C08,C20 timeout=1500 bounds=CAP=128,MAXN=2,n<=256
+// @h props=C01,C03,C08,C10,C16,C20 quick=C01,C03,C08,C10,C20 timeout=1500 bounds=CAP=128,MAXN=2,n<=256
 #[kani::proof]
 #[kani::unwind(5)]
 fn inv_alloc_bytes_unsync_pess_n2() {
   step_alloc::<unsync::Arena, u8, 2, 3, 128>(cfg!(Pessimistic, 1), Kind::Bytes);
 }
 
-// @h props=C01,C03,C08,C10,C16,C20 quick=C01,C03 timeout=1800 bounds=CAP=128,MAXN=2,n<=256,retries=1
+// @h props=C01,C03,C08,C10,C16,C20 quick=C01,C03,C08,C10,C20 timeout=1800 bounds=CAP=128,MAXN=2,n<=256,retries=1
 #[kani::proof]
 #[kani::unwind(5)]
 fn inv_alloc_bytes_sync_opt_n2() {
   step_alloc::<sync::Arena, u8, 2, 3, 128>(cfg!(Optimistic, 1), Kind::Bytes);
 }
 
-// @h props=C01,C03,C08,C10,C16,C20 quick=C08,C10 timeout=1800 bounds=CAP=128,MAXN=2,n<=256,retries=1
+// @h props=C01,C03,C08,C10,C16,C20 quick=C01,C08,C10 timeout=1800 bounds=CAP=128,MAXN=2,n<=256,retries=1
 #[kani::proof]
 #[kani::unwind(5)]
 fn inv_alloc_bytes_sync_pess_n2() {
@@ -716,28 +716,28 @@ fn inv_alloc_bytes_sync_none() {
 }
 
 // ============================ dealloc from INV ==============================================
-// @h props=C01,C10,C13,C16,C20 quick=C01,C20 timeout=1500 bounds=CAP=128,MAXN=2
+// @h props=C01,C10,C13,C16,C20 quick=C01,C10,C20 timeout=1500 bounds=CAP=128,MAXN=2
 #[kani::proof]
 #[kani::unwind(5)]
 fn inv_dealloc_unsync_opt_n2() {
   step_dealloc::<unsync::Arena, 2, 3, 128>(cfg!(Optimistic, 1));
 }
 
-// @h props=C01,C10,C13,C16,C20 quick=C10 timeout=1500 bounds=CAP=128,MAXN=2
+// @h props=C01,C10,C13,C16,C20 quick=C01,C10,C20 timeout=1500 bounds=CAP=128,MAXN=2
 #[kani::proof]
 #[kani::unwind(5)]
 fn inv_dealloc_unsync_pess_n2() {
   step_dealloc::<unsync::Arena, 2, 3, 128>(cfg!(Pessimistic, 1));
 }
 
-// @h props=C01,C10,C13,C16,C20 quick=C01,C10 timeout=1800 bounds=CAP=128,MAXN=2
+// @h props=C01,C10,C13,C16,C20 quick=C01,C10,C20 timeout=1800 bounds=CAP=128,MAXN=2
 #[kani::proof]
 #[kani::unwind(5)]
 fn inv_dealloc_sync_opt_n2() {
   step_dealloc::<sync::Arena, 2, 3, 128>(cfg!(Optimistic, 1));
 }
 
-// @h props=C01,C10,C13,C16,C20 quick=C20 timeout=1800 bounds=CAP=128,MAXN=2
+// @h props=C01,C10,C13,C16,C20 quick=C01,C10,C20 timeout=1800 bounds=CAP=128,MAXN=2
 #[kani::proof]
 #[kani::unwind(5)]
 fn inv_dealloc_sync_pess_n2() {
